@@ -18,4 +18,4 @@ done
 git -C /repo checkout -- .
 echo "CAUGHT_BY:${caught:- none}"
 # rebuild against the restored tree so that later direct runs of the binary are not stale
-cd "$here/sim" && cargo build --release --offline >/dev/null 2>&1
+cd "$here/sim" && cargo build --release --offline --target-dir "${VERIF_TARGET_DIR:-$here/sim/target}" >/dev/null 2>&1
